@@ -40,6 +40,7 @@ SIZES = {"u8": 1, "u16": 2, "u32": 4, "u64": 8, "rustic_core::id::Id": 32}
 
 def run(ctx, rep):
     prog = ctx.prog
+    wiring_rule(ctx, rep, "C08")
     for r, tx in (("C08.a", "header codec involution and entry lengths"), ("C08.b", "trailer length = length of the header bytes written"),
                   ("C08.c", "index entry = what was appended"), ("C08.d", "pack id = hash of the bytes written"), ("C08.e", "reader cross-checks header, trailer and listed size"),
                   ("C08.f", "trailer framing lengths agree on every reader path"), ("C08.g", "index entries are stored as handed over")):
